@@ -1,7 +1,7 @@
 (* C17 over Coq's real numbers: the hypotheses of the density theorem hold for R with the usual
    sqrt / exp / PI and `pow y 2 = y * y`, hence Gaussian::probability as written IS the normal
    density for every mean, every variance > 0 and every point. *)
-From Coq Require Import Reals Lra List.
+From Coq Require Import Reals Lra List NArith.
 From EasyML Require Import Base.Sx Model.Num Model.Gaussian Proofs.C14P Proofs.RealOps Proofs.C17P.
 Open Scope R_scope.
 
@@ -43,3 +43,38 @@ Proof.
   unfold box_muller. rewrite Rops_two. cbn.
   replace (- (2)) with (-2) by lra. reflexivity.
 Qed.
+
+(* ---- the link from Gaussian::draw to the documented transform, over the reals ----
+   For every mean, variance and source: whenever draw returns l, its samples 2i and 2i+1 are
+       sqrt(-2 ln u) cos(2 pi v) * sqrt(variance) + mean   and the sin twin,
+   with (u, v) the i-th pair of source numbers. *)
+Theorem draw_values_real (mean var : R) (src : list R) (k : nat) (l rest : list R) :
+  draw Rops (mkGaussian mean var) src (N.of_nat k) = (Some l, rest) ->
+  forall i : nat,
+  let u := nth (2 * i)%nat src 0 in
+  let v := nth (2 * i + 1)%nat src 0 in
+  ((2 * i < k)%nat ->
+     nth (2 * i)%nat l 0 = sqrt (-2 * ln u) * cos (2 * PI * v) * sqrt var + mean) /\
+  ((2 * i + 1 < k)%nat ->
+     nth (2 * i + 1)%nat l 0 = sqrt (-2 * ln u) * sin (2 * PI * v) * sqrt var + mean).
+Proof.
+  intros H i u v.
+  destruct (draw_values Rops (mkGaussian mean var) src k l rest 0 H i) as [H1 H2].
+  fold u v in H1, H2. rewrite box_muller_real in H1, H2. cbn [fst snd] in H1, H2. auto.
+Qed.
+
+(* for a uniform number u in (0, 1] the radicand is non-negative, so sqrt(-2 ln u) is its genuine
+   square root; for a variance >= 0 the scale factor sqrt(variance) is the standard deviation *)
+Lemma box_muller_radicand (u : R) : 0 < u <= 1 ->
+  0 <= -2 * ln u /\ sqrt (-2 * ln u) * sqrt (-2 * ln u) = -2 * ln u.
+Proof.
+  intros [Hpos Hle].
+  assert (Hln : ln u <= 0).
+  { destruct Hle as [Hlt | ->]; [|rewrite ln_1; lra].
+    pose proof (ln_increasing u 1 Hpos Hlt) as Hi. rewrite ln_1 in Hi. lra. }
+  assert (H0 : 0 <= -2 * ln u) by lra.
+  split; [exact H0 | now apply sqrt_sqrt].
+Qed.
+
+Lemma standard_deviation_squared (var : R) : 0 <= var -> sqrt var * sqrt var = var.
+Proof. apply sqrt_sqrt. Qed.
